@@ -47,3 +47,30 @@ META["C09"] = {
     "note": "Trusts the harness' reference decoder (40 lines) and that the generated reader behaviours stay inside the io.Reader contract.",
     "technique": "property-based testing (rapid) with reference-model oracle + exhaustive small ranges + native fuzzing",
 }
+
+PROPS["C07"] = {
+    "rule": ("c07_scrub: 1-5 generated log lines, each built from real log templates or from filler words over [g-zG-Z], "
+             "separators drawn from ASCII whitespace and punctuation other than ':' and '_', and 0-8 generated addresses "
+             "(IPv4; IPv6 full / every '::' position / IPv4-embedded / mixed case, rendered bare, ip:port, [ip6], [ip6]:port, "
+             "ip6%zone, [ip6%zone]:port), pushed through Scrub and through LogScrubber under a generated splitting into "
+             "Write calls. Oracles: no address text or address fragment in the output, output independent of the splitting, "
+             "every sink write ends in a newline, unterminated tail never emitted. Non-trivial = a line with >= 2 addresses "
+             "or a write boundary inside an address. c07_event: event String() methods. c07_concurrent: 2-6 goroutines "
+             "writing whole lines; output must be a permutation of the scrubbed lines (all non-trivial)."),
+    "assumptions": ["'_' counts as a word character, not as delimiting punctuation",
+                    "': ' (colon followed by whitespace) after an address is accepted as a right delimiter, as the scrubber's own delimiter class does",
+                    "filler text contains no digits and keeps hex letters away from ':' and '.'"],
+    "units": [
+        U("c07_scrub", "ext", "c07", "^TestVerifC07Scrub$", (6000, 100000)),
+        U("c07_event", "ext", "c07", "^TestVerifC07Event$", (3000, 30000), shards=(2, 4)),
+        U("c07_concurrent", "ext", "c07", "^TestVerifC07Concurrent$", (300, 3000), shards=(2, 4)),
+    ],
+}
+META["C07"] = {
+    "level": ("Sampled exploration: tens of thousands of generated lines per run over a structured address generator "
+              "covering every textual form Go prints or accepts and every delimiter class of the statement, with a "
+              "survivor scan as oracle and a metamorphic split-invariance oracle for the writer; the concurrent-writer part "
+              "also runs under the race detector in C20."),
+    "note": "Trusts the survivor scan (runs over [0-9A-Fa-f:.] with a hex digit and a separator) and the filler alphabet that makes it exact.",
+    "technique": "property-based testing (rapid): structured address/line generator, survivor-scan oracle, metamorphic split invariance",
+}
